@@ -1,6 +1,7 @@
 package rules
 
 import (
+	"strings"
 	"cvcheck/internal/core"
 
 	"golang.org/x/tools/go/ssa"
@@ -75,84 +76,96 @@ func isAppendTo(c *Ctx, in ssa.Instruction, elemPred func(*core.Term) bool) bool
 	return el != nil && elemPred(el)
 }
 
-// c03Loops: the no-drop rules shared by C03 and C17.
+// noDropRules: per-element loops must emit or fail (shared by C03 and C17). The loops are found by what they emit, in
+// whatever function they live (so splitting Run or Parse into helpers keeps the rule attached).
 func (c *Ctx) noDropRules(rule string) {
 	r := c.R
-	r.Rule(rule, "no-drop loops: in Parse (one MethodsInfo per interface entry), CreateFunctions (one Function per method, stored at its index), Run (one FunctionsBlock per interface) and generateContent (one marker replacement per block, one FuncToString per function) every iteration emits its element or the function returns an error")
+	r.Rule(rule, "no-drop loops: wherever module code appends a MethodsInfo (one per interface entry), stores a CreateFunction result at its index (one per method), appends a FunctionsBlock (one per interface), replaces a block marker or renders a function (one per block / function), every iteration of the enclosing loop emits its element or the function returns an error")
 	total := 0
-	if fn := c.MustMethod(rule, "/pkg/parser", "Parser", "Parse"); fn != nil {
-		total += c.noDropLoop(rule, fn, "appending the interface's MethodsInfo", func(in ssa.Instruction) bool {
-			return isAppendTo(c, in, func(t *core.Term) bool { return t.Kind == "alloc" && t.Name == "*model.MethodsInfo:complit" })
-		})
-		// the MethodsInfo carries this entry's methods and marker
-		if mi := c.P.LookupType("/pkg/builder/model", "MethodsInfo"); mi != nil {
-			for _, a := range c.Lits(mi) {
-				f := LitFields(a)
-				okM := f["Marker"] != nil && c.O.Of(f["Marker"]).IsField("parser.intfEntry.marker")
-				okS := f["Methods"] != nil && c.O.Of(f["Methods"]).Kind == "extract" && c.O.Of(f["Methods"]).Args[0].IsCallTo("(*"+pPar+"Parser).parseMethods")
-				same := okM && okS && c.O.Of(f["Marker"]).Args[0].String() == c.O.Of(f["Methods"]).Args[0].Args[1].String()
-				r.Check(rule, FnKey(a.Parent())+":MethodsInfo", c.InstrPos(a), same, "MethodsInfo must pair the marker of an entry with the methods parsed from that same entry")
+	inPkg := func(fn *ssa.Function, suffix string) bool {
+		p := pkgOf(fn)
+		return p != nil && p.Path() == mod+suffix
+	}
+	for _, fn := range c.P.Funcs() {
+		switch {
+		case inPkg(fn, "/pkg/parser"):
+			total += c.noDropLoop(rule, fn, "appending the interface's MethodsInfo", func(in ssa.Instruction) bool {
+				return isAppendTo(c, in, func(t *core.Term) bool { return t.Kind == "alloc" && t.Name == "*model.MethodsInfo:complit" })
+			})
+		case inPkg(fn, "/pkg/builder"):
+			total += c.noDropLoop(rule, fn, "storing the method's Function", func(in ssa.Instruction) bool {
+				st, ok := in.(*ssa.Store)
+				if !ok {
+					return false
+				}
+				_, isIdx := st.Addr.(*ssa.IndexAddr)
+				t := c.O.Of(st.Val)
+				return isIdx && t.Kind == "extract" && t.Args[0].IsCallTo("(*"+pBld+"FunctionBuilder).CreateFunction")
+			})
+		case inPkg(fn, "/pkg/runner"):
+			total += c.noDropLoop(rule, fn, "appending the interface's FunctionsBlock", func(in ssa.Instruction) bool {
+				ca, ok := in.(*ssa.Call)
+				if !ok || core.CalleeName(&ca.Call) != "builtin:append" {
+					return false
+				}
+				return strings.Contains(ca.Type().String(), "generator/model.FunctionsBlock")
+			})
+		case inPkg(fn, "/pkg/generator"):
+			total += c.noDropLoop(rule, fn, "replacing the block's marker", func(in ssa.Instruction) bool {
+				ca, ok := in.(*ssa.Call)
+				return ok && (core.CalleeName(&ca.Call) == "strings.Replace" || core.CalleeName(&ca.Call) == "strings.ReplaceAll")
+			})
+			total += c.noDropLoop(rule, fn, "rendering the function", func(in ssa.Instruction) bool {
+				ca, ok := in.(*ssa.Call)
+				if !ok || core.CalleeName(&ca.Call) != "(*strings.Builder).WriteString" {
+					return false
+				}
+				return c.O.Of(ca.Call.Args[1]).IsCallTo("(*" + pGen + "Generator).FuncToString")
+			})
+		}
+	}
+	r.Floor(rule, "emit sites in per-element loops", total, 5)
+	// pairing of markers with their elements
+	if mi := c.P.LookupType("/pkg/builder/model", "MethodsInfo"); mi != nil {
+		for _, a := range c.Lits(mi) {
+			f := LitFields(a)
+			okM := f["Marker"] != nil && c.O.Of(f["Marker"]).IsField("parser.intfEntry.marker")
+			okS := f["Methods"] != nil && c.O.Of(f["Methods"]).Kind == "extract" && c.O.Of(f["Methods"]).Args[0].IsCallTo("(*"+pPar+"Parser).parseMethods")
+			same := okM && okS && c.O.Of(f["Marker"]).Args[0].String() == c.O.Of(f["Methods"]).Args[0].Args[1].String()
+			r.Check(rule, FnKey(a.Parent())+":MethodsInfo", c.InstrPos(a), same, "MethodsInfo must pair the marker of an entry with the methods parsed from that same entry")
+		}
+	}
+	if fb := c.P.LookupType("/pkg/generator/model", "FunctionsBlock"); fb != nil {
+		for _, a := range c.Lits(fb) {
+			if !inPkg(a.Parent(), "/pkg/runner") {
+				continue
 			}
+			f := LitFields(a)
+			okM := f["Marker"] != nil && c.O.Of(f["Marker"]).IsField("model.MethodsInfo.Marker")
+			okF := f["Functions"] != nil && c.O.Of(f["Functions"]).Kind == "extract" && c.O.Of(f["Functions"]).Args[0].IsCallTo("(*"+pBld+"FunctionBuilder).CreateFunctions")
+			same := okM && okF && c.O.Of(f["Functions"]).Args[0].Args[1].IsField("model.MethodsInfo.Methods") &&
+				c.O.Of(f["Functions"]).Args[0].Args[1].Args[0].String() == c.O.Of(f["Marker"]).Args[0].String()
+			r.Check(rule, FnKey(a.Parent())+":FunctionsBlock", c.InstrPos(a), same, "a FunctionsBlock must pair the marker of an interface with the functions created from that interface's methods")
 		}
 	}
 	if fn := c.MustMethod(rule, "/pkg/builder", "FunctionBuilder", "CreateFunctions"); fn != nil {
-		n := c.noDropLoop(rule, fn, "storing the method's Function", func(in ssa.Instruction) bool {
-			st, ok := in.(*ssa.Store)
-			if !ok {
-				return false
-			}
-			_, isIdx := st.Addr.(*ssa.IndexAddr)
-			t := c.O.Of(st.Val)
-			return isIdx && t.Kind == "extract" && t.Args[0].IsCallTo("(*"+pBld+"FunctionBuilder).CreateFunction")
-		})
-		total += n
-		// result slice has len(methods) slots and is returned
 		for _, ret := range c.successReturns(fn) {
 			t := c.O.Of(ret.Results[0])
 			ok := t.Kind == "make" && t.Args[0].IsCallTo("builtin:len") && t.Args[0].Args[0].Kind == "param"
 			r.Check(rule, FnKey(fn)+":result-size", c.InstrPos(ret), ok, "CreateFunctions must return a slice with one slot per method: "+t.String())
 		}
 	}
-	if fn := c.MustFunc(rule, "/pkg/runner", "Run"); fn != nil {
-		total += c.noDropLoop(rule, fn, "appending the interface's FunctionsBlock", func(in ssa.Instruction) bool {
-			return isAppendTo(c, in, func(t *core.Term) bool { return t.Kind == "local" || t.Kind == "alloc" || t.Kind == "deref" || true })
-		})
-		if fb := c.P.LookupType("/pkg/generator/model", "FunctionsBlock"); fb != nil {
-			for _, a := range c.Lits(fb) {
-				if a.Parent() != fn {
-					continue
-				}
-				f := LitFields(a)
-				okM := f["Marker"] != nil && c.O.Of(f["Marker"]).IsField("model.MethodsInfo.Marker")
-				okF := f["Functions"] != nil && c.O.Of(f["Functions"]).Kind == "extract" && c.O.Of(f["Functions"]).Args[0].IsCallTo("(*"+pBld+"FunctionBuilder).CreateFunctions")
-				same := okM && okF && c.O.Of(f["Functions"]).Args[0].Args[1].IsField("model.MethodsInfo.Methods") &&
-					c.O.Of(f["Functions"]).Args[0].Args[1].Args[0].String() == c.O.Of(f["Marker"]).Args[0].String()
-				r.Check(rule, FnKey(fn)+":FunctionsBlock", c.InstrPos(a), same, "a FunctionsBlock must pair the marker of an interface with the functions created from that interface's methods")
-			}
+	for _, s := range c.CallsTo("strings.Replace") {
+		if !inPkg(s.Fn, "/pkg/generator") {
+			continue
 		}
+		a := s.Args()
+		old := c.O.Of(a[1])
+		nw := c.O.Of(a[2])
+		cnt := c.O.Of(a[3])
+		ok := old.IsField("model.FunctionsBlock.Marker") && nw.IsCallTo("(*strings.Builder).String") && (cnt.Is("const", "1") || cnt.Is("const", "-1"))
+		r.Check(rule, FnKey(s.Fn)+":replace-operands", c.Pos(s.Pos()), ok, "the marker of the block must be replaced by the rendered functions of that block: Replace(code, block.Marker, sb.String(), 1); got old="+old.String()+" new="+nw.String())
 	}
-	if fn := c.MustMethod(rule, "/pkg/generator", "Generator", "generateContent"); fn != nil {
-		total += c.noDropLoop(rule, fn, "replacing the block's marker", func(in ssa.Instruction) bool {
-			ca, ok := in.(*ssa.Call)
-			return ok && (core.CalleeName(&ca.Call) == "strings.Replace" || core.CalleeName(&ca.Call) == "strings.ReplaceAll")
-		})
-		total += c.noDropLoop(rule, fn, "rendering the function", func(in ssa.Instruction) bool {
-			ca, ok := in.(*ssa.Call)
-			if !ok || core.CalleeName(&ca.Call) != "(*strings.Builder).WriteString" {
-				return false
-			}
-			return c.O.Of(ca.Call.Args[1]).IsCallTo("(*" + pGen + "Generator).FuncToString")
-		})
-		for _, s := range c.CallsIn(fn, "strings.Replace", false) {
-			a := s.Args()
-			old := c.O.Of(a[1])
-			nw := c.O.Of(a[2])
-			cnt := c.O.Of(a[3])
-			ok := old.IsField("model.FunctionsBlock.Marker") && nw.IsCallTo("(*strings.Builder).String") && (cnt.Is("const", "1") || cnt.Is("const", "-1"))
-			r.Check(rule, FnKey(fn)+":replace-operands", c.Pos(s.Pos()), ok, "the marker of the block must be replaced by the rendered functions of that block: Replace(code, block.Marker, sb.String(), 1); got old="+old.String()+" new="+nw.String())
-		}
-	}
-	r.Floor(rule, "emit sites in per-element loops", total, 5)
 }
 
 // C17 — exactly the marked interfaces of the input file.
